@@ -306,6 +306,8 @@ esl_sq_Copy(const ESL_SQ *src, ESL_SQ *dst)
     }
   else if (src->seq != NULL && dst->dsq != NULL) /* text to digital */
     {
+      /* as esl_sq_Digitize() does: a character the alphabet ignores would make the digital sequence shorter than dst->n */
+      if ((status = esl_abc_ValidateSeq(dst->abc, src->seq, src->n, NULL)) != eslOK) goto ERROR;
       if ((status = esl_abc_Digitize(dst->abc, src->seq, dst->dsq)) != eslOK) goto ERROR;      
       if (src->ss != NULL) {
 	strcpy(dst->ss+1, src->ss);
